@@ -116,7 +116,12 @@ def run(ctx):
               'semaphore; the extracted model replays the schedule and must predict site sequence, every return value, the set '
               'of threads blocked at the end and the final count/lower limit.  non-trivial = >=2 threads and at least one '
               'suspend or signal-loop step; distinct = distinct (input, schedule) lines.  TASKS: c08_tasks runs ledger, timed, '
-              'sliding and sync_wait scenarios on real pika tasks with property monitors; f14 is the bounded OS-thread experiment.')
+              'sliding and sync_wait scenarios on real pika tasks with property monitors; MIXED: per case one counting_semaphore '
+              '(release(1) or release(n>1)) or binary_semaphore, initial count 0..2, 1..3 pika tasks blocked in try_acquire_for(50..90 ms), '
+              '1..2 tasks spinning on try_acquire() up to a quota, a releaser handing out 1..3 batches one at a time (binary: only '
+              'while the counter is known to be 0); ledger monitor: successful acquisitions <= initial + released at every '
+              'instant, after quiescence successful + leftover (drained) == initial + released, and release(1) then makes exactly '
+              'one try_acquire succeed (count never negative); f14 is the bounded OS-thread experiment.')
     ctx.build_pika()
     drv = ctx.build_model('C08', 'ExtractC08.v', 'drv_c08.ml')
     h_ls = ctx.build_harness('c08_lockstep', 'c08_lockstep.cpp')
@@ -178,6 +183,8 @@ def run(ctx):
     run_tasks(ctx, r, h_tk, 'sliding', sd, 3000 if quick else 15000, 300 if quick else 1500)
     run_tasks(ctx, r, h_tk, 'syncwait', sd, 3000 if quick else 20000, 300 if quick else 1500)
     run_tasks(ctx, r, h_tk, 'timed', sd, 3 if quick else 20, 120 if quick else 600)
+    # blocked timed acquirers + try_acquire spinners + single-batch releases (8 concurrent cases per batch, ~0.1 s per batch)
+    run_tasks(ctx, r, h_tk, 'mixed', sd, 60 if quick else 400, 300 if quick else 1500)
     # ---- F14: witness of os_timed_acquire_deadlock_refuted replayed on the real code (bounded)
     f14 = run_tasks(ctx, r, h_tk, 'f14', sd, 1, 60)
     if not any('os_timed_acquire:release_deadlock' in x for x in f14):
